@@ -34,7 +34,7 @@ def items(tier, seed):
                              job_open=JOB,
                              top_open={'window': [1, 2], 'sdt': [0, 2, None],
                                        'k': ['nest'], 'critical': [True]},
-                             nest_open={}, extra=_base.X_THASH, k=3, bound=3)
+                             nest_open={}, extra=_base.X_THASH, k=2, bound=3)
     else:
         # job ends before / on / after the expiry through a forced duration
         # assignment, one further deviation
